@@ -20,22 +20,29 @@ def exMol : Mol :=
 
 /-! ## the path enumeration (`_chains`) -/
 
-/-- the queue loop terminates: the model never reports exhausted fuel, whatever the molecule and the radii -/
-theorem chains_total (m : Mol) (lo hi : Int) : ∃ r, chains m lo hi = .ok r := chains_ok m lo hi
+/-- the queue loop terminates and no subscript fails: on a well-formed molecule `_chains` returns a value for all radii
+    (the model never reports exhausted fuel; the bound `chainsFuel` suffices) -/
+theorem chains_total (m : Mol) (hwf : m.WF = true) (lo hi : Int) : ∃ r, chains m lo hi = .ok r := chains_ok m hwf lo hi
+
+/-- the error branch: `bonds[now[-1]]` of an atom without a neighbour dict is a `KeyError`, as in Python -/
+theorem chains_keyError (m : Mol) (now : Path) (l : Nat) (hl : now.getLast? = some l) (hno : m.adj.lookup l = none) :
+    extend m now = .error .keyError := extend_keyError m now l hl hno
+
+example : chains ⟨[(1, { z := 6 })], []⟩ 1 2 = .error .keyError := by rfl
 
 /-- **chains_exact** — for radii `1 ≤ lo ≤ hi`, `_chains` returns exactly the direction-canonical forms of the simple
     paths with `lo … hi` atoms (soundness and completeness). -/
 theorem chains_exact (m : Mol) (hwf : m.WF = true) (lo hi : Int) (h1 : 1 ≤ lo) (h2 : lo ≤ hi) (r : List Path)
     (h : chains m lo hi = .ok r) (x : Path) :
     x ∈ r ↔ ∃ p, SimplePath m p ∧ lo ≤ (p.length : Int) ∧ (p.length : Int) ≤ hi ∧ x = canon p :=
-  chains_exact_aux m (closed_of_wf m hwf) lo hi h1 h2 r h x
+  chains_exact_aux m hwf lo hi h1 h2 r h x
 
 example : exMol.WF = true ∧ chains exMol 2 3 = .ok [[3, 2], [2, 1], [4, 2], [4, 2, 3], [3, 2, 1], [4, 2, 1]] :=
   ⟨by decide, by rfl⟩
 
 /-- the returned collection is a set: each undirected path appears once -/
 theorem chains_nodup (m : Mol) (hwf : m.WF = true) (lo hi : Int) (r : List Path) (h : chains m lo hi = .ok r) :
-    r.Nodup := chains_nodup_aux m (wf_parts m hwf).1 lo hi r h
+    r.Nodup := chains_nodup_aux m hwf lo hi r h
 
 /-- the canonical form identifies exactly a path and its reverse (palindromes are not double counted) -/
 theorem canon_identifies_directions (p q : Path) : canon p = canon q ↔ p = q ∨ p = q.reverse := canon_eq_iff p q
